@@ -79,6 +79,16 @@ def run(pid, tier, args):
                                     {"property": pid, "kind": "api-textcfg", "calls": eps})
                     continue
                 g = byid[key[0]]
+                if key[2] >= len(g["inputs"]):
+                    # inputs beyond the case file (leading byte-order mark): relational checks only
+                    outs = {ep: eps[ep] for ep in PARSE_EPS if ep in eps}
+                    louts = {ep: eps[ep] for ep in ("Lex", "Lex(DataErrReader)", "Lex(named reader)") if ep in eps}
+                    dl = {ep: eps[ep] for ep in ("def.Lex", "def.LexString", "def.LexBytes", "def.Lex(DataErrReader)") if ep in eps}
+                    if len(set(outs.values())) > 1 or len(set(louts.values())) > 1 or len(set(dl.values())) > 1:
+                        nb = key[2] - len(g["inputs"])
+                        v.violation("[%s lexer] grammar %s lookahead %d input BOM+%r: entry points disagree: %s" % (variant, key[0], key[1], g["inputs"][nb]["s"], json.dumps({**outs, **louts, **dl})[:500]),
+                                    {"property": pid, "kind": "api-bom", "variant": variant, "calls": eps})
+                    continue
                 inp = g["inputs"][key[2]]["s"]
                 bad = None
                 outs = {ep: eps[ep] for ep in PARSE_EPS if ep in eps}
